@@ -753,10 +753,52 @@ def rule_FX(ctx):
     need(len(ls) == 1 and ls[0][2] and loop_ancestor(ls[0][0], f, parents(f)) is not None and swallowing_handlers(ls[0][0], f, parents(f)), "fx_unpickler_loop", "incremental Unpickler loop is flagged (load in loop, EOFError -> break)")
 
 
+def rule_P0(ctx):
+    """Pre-pass with the four detectors over the anchor modules (trace writer / readers / run): the forbidden
+    constructs are reported wherever they appear, whatever shape the surrounding function has taken."""
+    prog = ctx.prog
+    ctx.rule("P0", "anchor modules contain no pickle frame written in a loop, no append / update / computed open mode on a pickling writer, no unpickling in a loop and no handler that swallows a load failure", 4)
+    mods = [prog.module("phyclone.process_trace.process_trace"), prog.module("phyclone.run")]
+    for m in mods:
+        for fi in [f for f in prog.functions.values() if f.module is m and f.parent is None]:
+            pmap = parents(fi.node)
+            dumps = dump_sites(fi.node, m)
+            loads = load_sites(fi.node, m)
+            if not dumps and not loads:
+                continue
+            label = fi.qualname.split("phyclone.")[-1]
+            for c in dumps:
+                lp = loop_ancestor(c, fi.node, pmap)
+                ctx.check(lp is None, "P0", "%s: %s is not inside a loop" % (label, u(c)[:50]), fi.where(c),
+                          "a pickle frame is written per loop pass (%s): the file becomes a sequence of records, and a prefix that ends at a record boundary is a well-formed shorter trace" % u(lp)[:70].split("\n")[0] if lp is not None else "", construct=fi.qualname, stmt="dump in loop")
+            for c in [x for x in calls(fi.node)]:
+                try:
+                    info = opener_info(c, m)
+                except AnalysisError as e:
+                    if dumps:
+                        ctx.fail("P0", "%s: open mode of %s" % (label, u(c)[:50]), fi.where(c), "the mode of a writer's opener is computed (%s): it can append to an existing stream, so the file can hold several members / frames and a cut between them reads as a complete shorter trace" % str(e)[:120], construct=fi.qualname, stmt="computed open mode")
+                    continue
+                if info is None or not dumps:
+                    continue
+                fam, path, mode = info
+                if is_write_mode(mode):
+                    prob = mode_problem(mode)
+                    ctx.check(prob is None, "P0", "%s: %s opens a fresh single stream" % (label, u(c)[:50]), fi.where(c), prob or "", construct=fi.qualname, stmt="open mode")
+            for c, stream, via in loads:
+                lp = loop_ancestor(c, fi.node, pmap)
+                ctx.check(lp is None, "P0", "%s: %s is not inside a loop" % (label, u(c)[:50]), fi.where(c),
+                          "the trace is unpickled record by record in a loop: whatever records load before the stream ends are kept, so a truncated file yields a partial trace instead of an error", construct=fi.qualname, stmt="load in loop")
+                hs = swallowing_handlers(c, fi.node, pmap)
+                ctx.check(not hs, "P0", "%s: no handler swallows a failure of %s" % (label, u(c)[:40]), fi.where(hs[0][0]) if hs else fi.where(c),
+                          "a truncated stream raises here, but %s catches it and carries on" % (hs[0][1] if hs else ""), construct=fi.qualname, stmt="swallowing handler")
+            ctx.analysed(fi)
+
+
 def run(ctx):
     ctx.assume("pickle.load raises on a truncated pickle stream; gzip raises EOFError/BadGzipFile on a truncated or corrupt member (trusted base, not decided here)")
     ctx.assume("who-may-call is over-approximated by name: a function may call every repository function whose name it mentions")
     rule_FX(ctx)
+    rule_P0(ctx)
     f1 = rule_F1(ctx)
     rule_F2(ctx, f1)
 
